@@ -97,7 +97,9 @@ def _write_xml_element_to_file(file, xml_element, indent: str):
 
 
 def _write_xml_string_to_file(file, xml_string: str, indent: str):
-    result = textwrap.indent(xml_string, indent)
+    # indent at line feeds only: textwrap.indent() also breaks lines at other unicode line boundaries
+    # (e.g. U+2028), which may occur inside text content such as file names and must not be altered
+    result = "\n".join(indent + line if line.strip() else line for line in xml_string.split("\n"))
     file.write(result.encode("utf-8"))
 
 
